@@ -346,6 +346,42 @@ static int mode_rng(void)
 	return 0;
 }
 
+/* ---------------------------------------------------------------- onexit */
+/* concurrent registration of exit handlers (util.c: the list behind rngCreate's clean-up): every registered handler must
+   be called exactly once at exit; the report is printed by an atexit function registered first, i.e. run last */
+static long onexit_calls, onexit_false, onexit_expected;
+static void onexit_h(void) { __atomic_add_fetch(&onexit_calls, 1, __ATOMIC_RELAXED); }
+static void onexit_report(void)
+{
+	printf("{\"mode\":\"onexit\",\"threads\":%d,\"expected\":%ld,\"called\":%ld,\"ret_false\":%ld,\"sig\":\"%016llx\"}\n",
+		T, onexit_expected, onexit_calls, onexit_false, (unsigned long long)sig_final());
+	fflush(stdout);
+}
+static void* onexit_thread(void* arg)
+{
+	int tid = (int)(intptr_t)arg, i; long bad = 0;
+	seed_thread(tid, 0x4444);
+	pthread_barrier_wait(&bar);
+	for (i = 0; i < NTRIG; ++i)
+	{
+		if ((i & 7) == 0) do_yield(400);
+		if (!utilOnExit(onexit_h)) ++bad;
+		sig_event(i & 0xFF);
+	}
+	__atomic_add_fetch(&onexit_false, bad, __ATOMIC_RELAXED);
+	return 0;
+}
+static int mode_onexit(void)
+{
+	pthread_t th[MAXT]; int i;
+	atexit(onexit_report);
+	onexit_expected = (long)T * NTRIG;
+	pthread_barrier_init(&bar, 0, T);
+	for (i = 0; i < T; ++i) pthread_create(&th[i], 0, onexit_thread, (void*)(intptr_t)i);
+	for (i = 0; i < T; ++i) pthread_join(th[i], 0);
+	return 0;
+}
+
 /* heartbeat: an unpinned thread reports the number of completed operations every second, so that the driver can tell
    "slow on a loaded machine" (the count moves) from "stuck" (it does not) without a wall-clock verdict */
 static void* heartbeat(void* arg)
@@ -395,6 +431,7 @@ int main(int argc, char** argv)
 	if (!strcmp(mode, "once")) return mode_once();
 	if (!strcmp(mode, "atomic")) return mode_atomic();
 	if (!strcmp(mode, "rng")) return mode_rng();
+	if (!strcmp(mode, "onexit")) return mode_onexit();
 	fprintf(stderr, "unknown mode\n");
 	return 2;
 }
